@@ -291,7 +291,21 @@ public:
 #ifdef C09_CALIBRATE
       if (!in) { g_worst[std::string("COUNT value-outside:") + fam + (P.median ? ":median" : ":mean")] += 1; continue; }
 #endif
-      if (!in) ctx.fail("invariant:value-in-class", P.median ? std::string("invariant:value-in-class:median-scaled") : "invariant:value-in-class:" + fam + ":mean", who + ": class " + std::to_string(i) + " of " + std::to_string(n) + " has value " + fmtd(cats[i]) + " outside its interval [" + fmtd(bounds[i]) + ", " + fmtd(bounds[i + 1]) + "]");
+      if (!in) {
+        // the one known finding of this clause is the DOCUMENTED rescaling of the class medians (median * expectation / sum of medians / class
+        // mass) leaving the class; a median-valued class outside its interval that is NOT that documented value is a different violation
+        bool documented = false;
+        if (P.median) {
+          double minX = d.pProb(lo), ec = (d.pProb(hi) - minX) / static_cast<double>(n), t = 0;
+          std::vector<double> q(n); for (size_t k2 = 0; k2 < n; ++k2) { q[k2] = d.qProb(minX + (static_cast<double>(k2) + 0.5) * ec); t += q[k2]; }
+          // the value found may be the rescaled median of ANOTHER class (a negative or large factor reorders the values, which are then
+          // listed in ascending order), or a rescaled median clamped next to a domain end
+          double mean0 = d.Expectation(hi) - d.Expectation(lo), factor = t != 0 ? mean0 / t / ec : 1;
+          for (size_t k2 = 0; k2 < n; ++k2) { double want = q[k2] * factor; if (std::abs(cats[i] - want) <= 1e-9 * (1 + std::abs(want))) documented = true; }
+          if (std::abs(cats[i] - lo) <= 1e-6 * (1 + std::abs(lo)) || std::abs(cats[i] - hi) <= 1e-6 * (1 + std::abs(hi))) documented = true;
+        }
+        ctx.fail("invariant:value-in-class", documented ? std::string("invariant:value-in-class:median-scaled") : "invariant:value-in-class:" + fam + (P.median ? ":median" : ":mean"), who + ": class " + std::to_string(i) + " of " + std::to_string(n) + " has value " + fmtd(cats[i]) + " outside its interval [" + fmtd(bounds[i]) + ", " + fmtd(bounds[i + 1]) + "]");
+      }
     }
     double Plo = d.pProb(lo), Phi = d.pProb(hi), M = Phi - Plo;
     ctx.check(M >= 0 && M <= 1 + 1e-9, "invariant:domain-mass", "invariant:domain-mass:" + fam, who + ": domain mass " + fmtd(M));
